@@ -265,6 +265,11 @@ class CallModels:
                 return self.seq_index(eng, st, k, o.len, lambda i: self.list_elem(eng, o, i), 'list')
             if isinstance(o, OBytearray):
                 return self.seq_index(eng, st, k, o.len, lambda i: VInt(t.select(o.arr, i)), 'bytearray')
+            if isinstance(o, OObject):
+                # obj[k] on an object of a repository class: its __getitem__, through the contract
+                q = self.src.resolve_method(o.cls, '__getitem__') if o.cls in self.src.classes else None
+                if q is not None and q in self.contracts:
+                    return self.call_contract(eng, q, b, [k if isinstance(k, VDyn) else VDyn(eng.to_dyn(k, st))], {}, st, None)
         if isinstance(b, VBytes):
             return self.seq_index(eng, st, k, b.len, lambda i: VInt(b.at(i)), 'bytes')
         if b.kind == 'map':
